@@ -146,7 +146,7 @@ def boundary(ck, w, seed, quick):
     jobs = []
     for i in range(6 if quick else 60):
         jobs.append(('sizes', i))
-    for i in range(3 if quick else 20):
+    for i in range(4 if quick else 24):
         jobs.append(('counts', i))
     jobs.append(('manytx', 0))
     if not quick:
@@ -169,7 +169,7 @@ def boundary(ck, w, seed, quick):
                              'wit': [[r0.choice('zsml' if h == 2 and k == 0 else 'zsm') for _ in range(r0.randrange(0, 3))] for _ in range(nin)]}
                     txs.append(wirerep.mk_tx(shape, r0, sz, idx=k))
             elif kind == 'counts':
-                n1, n2 = r0.choice([(0xfc, 0xfd), (0xfd, 0xfc), (253, 300), (1, 0xfd)])
+                n1, n2 = [(0xfc, 0xfd), (0xfd, 0xfc), (253, 300), (1, 0xfd), (1, 513), (600, 2000), (1025, 1), (2, 4097)][(i + h) % 8]
                 txs.append(wirerep.mk_tx({'seg': h % 2 == 1, 'ins': ['z'] * n1, 'outs': ['s'] * n2, 'wit': [['s'] * (253 if k == 0 else 1) for k in range(n1)]}, r0))
                 txs.append(wirerep.mk_tx({'seg': False, 'ins': ['s'], 'outs': [], 'wit': []}, r0))
             elif kind == 'manytx':
